@@ -130,20 +130,20 @@ PROPS = {
                         "strings and data of one point together below 2^63 bytes (protobuf-go refuses messages above 2 GiB)"],
     },
     "C10": {
-        "required_theorems": ["c10_decode_encode", "c10_merge_diff", "field_diff", "c10_empty_key_counter", "gen_limits_pinned"],
+        "required_theorems": ["c10_decode_encode", "c10_decode_encode_children", "c10_merge_diff", "field_diff", "c10_empty_key_counter", "gen_limits_pinned"],
         "n": {"quick": 20000, "thorough": 200000},
         "thorough_seeds": 3,
         "rule": "random configuration TYPES built at run time with reflect.StructOf (1-4 tagged fields: scalar, *scalar, []scalar, [n]scalar, map[string]scalar, flat struct, *flat struct; "
                 "14 scalar kinds; point and edgepoint tags; node id/parent) and random values (boundary integers +-(2^53-1), width limits, empty/unicode/NUL strings, subnormal and huge floats, "
                 "nil vs non-nil, 0..9 elements; a separate 'wide' stream with 999/1000/1001 elements, integers beyond 2^53 and empty map keys; 1 dm case in 120 with maps of 400-1000 entries "
                 "that are largely replaced and slices growing/shrinking between 0, 3, 700 and 1000 elements): "
-                "enc (points compared sorted), rt (Encode then Decode into the zero value), dm (DiffPoints then MergePoints onto a copy); distinct = distinct case line",
+                "enc (points compared sorted), rt (Encode then Decode into the zero value), dm (DiffPoints then MergePoints onto a copy), rtc (1 case in 8: the type gets 1-2 `child` fields with their own random element "
+                "types; the value and 0-5 children, in any order and sometimes of a node type no field asks for, are encoded and decoded together); distinct = distinct case line",
         "trusted": ["reflect (modelled by a deep embedding of types and values)", "IEEE-754 / Go numeric conversions (parameter Num with the stated laws NumLaws; instantiated with real floats in the driver)"],
         "modelled": ["data/encode.go Encode, appendPointsFromValue, pointFromPrimitive, DiffPoints; data/decode.go Decode, SetValue, setVal; data/merge.go MergePoints modelled by hand (Siot/Model/Config.lean)",
-                     "child lists (`child` tag) and FindNodeInStruct recursion are not modelled (top-level struct only)",
+                     "child lists (`child` tag) are modelled one level deep (decodeC / decodeKids: the element types have no child fields of their own); FindNodeInStruct (merging into a nested child) is not modelled",
                      "Diff/Merge: proved for every field kind (Lemmas/ConfigDiff.lean scalars, pointers, flat structs; ConfigDiffIdx.lean slices and arrays incl. growth, tail tombstones and trimming; "
                      "ConfigDiffMap.lean maps up to the order of entries); the specification oracle `merged value = b` also runs on every dm case"],
-        "partial": "child lists (`child` tag, decode only) are outside the model; both halves of the property are proved for the top-level struct",
         "assumptions": ["NumLaws: int/uint <-> float64 exact within +-(2^53-1), float32 widening/narrowing inverse, FloatToBool", "containers of pointers and pointers inside flat structs are outside the supported universe",
                         "Diff/Merge: keys of flat struct fields are non-empty (Go derives them from the tag or the field name); merged floats are equal or Go-`==` to the wanted ones (DiffPoints sends nothing for -0 -> +0)"],
     },
